@@ -265,7 +265,8 @@ def Op.plain : Op → Bool
   | _ => true
 
 theorem scal_markUsed (d : Disk) (m : Mem) (sc : Nat) (k : AKey) : Scal (markUsed d m sc k).2 = Scal m := rfl
-theorem scal_setSynced (d : Disk) (m : Mem) (h x : Nat) : Scal (setSyncedTo d m h x).2 = Scal m := rfl
+theorem scal_setSynced (d : Disk) (m : Mem) (h x : Nat) : Scal (setSyncedTo d m h x).2.1 = Scal m := by
+  unfold setSyncedTo; split <;> rfl
 
 theorem scal_exec (s : State) (m : Mem) (hs : s.mem = some m) (op : Op) (hp : op.plain = true) (m' : Mem)
     (h : (exec s m op).1.mem = some m') : Scal m' = Scal m := by
@@ -280,6 +281,7 @@ theorem scal_exec (s : State) (m : Mem) (hs : s.mem = some m) (op : Op) (hp : op
   case importScript => cases h; exact scal_importScript ..
   case markUsed => cases h; exact scal_markUsed ..
   case setSynced => cases h; exact scal_setSynced ..
+  case setBirthday => simp only [hs] at h; cases h; rfl
   case privKey =>
     split at h
     · simp only [hs] at h; cases h; rfl
